@@ -173,8 +173,7 @@ fn c03p_pipeline_witness() {
 // =================================================================================================
 // C03: the two file-writing kernels of ZiPatch::apply (delete / expand and the zero-fill after add),
 // run over the in-memory file model (support/memfs.rs, wired in through registry.TRANSFORMS).
-// Whole-`apply` harnesses follow further down (session 3); see DESIGN.md section 4 for which of them decide
-// with the measured reason they do not decide.
+// Whole-`apply` harnesses follow further down (session 3); see DESIGN.md section 4 for which of them decide.
 // =================================================================================================
 use crate::verif_support::memfs;
 
